@@ -66,7 +66,8 @@ class IterMachine(Machine):
     """R4 (and C01.R2): per processed stream of the direct-to-pack loop: exactly one key appended to the returned list;
     a key found in the known set is not staged; a new key is staged and (with no_holes) added to the known set."""
 
-    def __init__(self, ctx, g, rule='C09.R4'):
+    def __init__(self, ctx, g, rule='C09.R4', require_tested=False):
+        self.require_tested = require_tested
         self.ctx = ctx
         self.K = ctx.kinds
         self.rule = rule
@@ -117,7 +118,11 @@ class IterMachine(Machine):
             if cmp_ is not None and st[0]:
                 isin = c[2] if isinstance(cmp_.ops[0], ast.In) else (not c[2])
                 if isinstance(e, ast.BoolOp) and isinstance(e.op, ast.And) and not c[2]:
-                    return st  # `A and (k in S)` false: nothing learnt
+                    # `A and (k in S)` false: something is learnt only when every other conjunct is true under this specialisation
+                    from ..resolve import fold
+                    others = [v for v in e.values if not any(x is cmp_ for x in ast.walk(v))]
+                    if not all(fold(self.ctx.prog, o, c[1].fn, c[1].consts) is True for o in others):
+                        return st
                 s = list(st)
                 s[3] = 'yes' if isin else 'no'
                 return tuple(s)
@@ -132,6 +137,9 @@ class IterMachine(Machine):
                                      'also on the already-known / `continue` path)'))
             if known == 'yes' and staged:
                 out.append(Violation(self.rule, node, st, 'an index row is staged for content that is already in the known set: a second referenced copy'))
+            if known == '?' and staged and self.require_tested:
+                out.append(Violation(self.rule, node, st, 'with no_holes an index row is staged (and the bytes stay in the pack) for content that was never tested against the set of already packed keys '
+                                     'on this path: known content is appended again and left as unreferenced bytes'))
             if known == 'no' and not staged:
                 out.append(Violation(self.rule, node, st, 'content not in the known set is written but no index row is staged for it'))
             if known == 'no' and staged and not added and self.known_adds:
@@ -496,7 +504,7 @@ def run(ctx, host=None):
         for v in viols:
             r3bad = True
             chk.bad(R3, v.node.frame.fn.qualname, v.node.text(120), v.msg + f' [flags {consts}]', where=v.node.where, witness=v.witness)
-        m4 = IterMachine(ctx, g)
+        m4 = IterMachine(ctx, g, require_tested=bool(consts.get('no_holes')))
         chk.require(m4.retname and m4.ret_appends and m4.pops and m4.stage, f'{DIRECT}: returned list / pop / staging sites not found')
         if consts.get('no_holes') and not m4.known_names:
             # is the membership test made against an attribute of the handle (a set that outlives the call)?
@@ -580,6 +588,12 @@ def run(ctx, host=None):
     R7 = chk.rule('C09.R7', 'no_holes / no_holes_read_twice are forwarded unchanged by every wrapper down to the direct-to-pack writer', 1)
     nf = option_forwarding(ctx, chk, R7, ['no_holes', 'no_holes_read_twice'], S)
     chk.require(nf >= 4, f'expected >= 4 forwarding sites of no_holes/no_holes_read_twice, found {nf}')
+
+    # rules of other properties that are necessary conditions of this one too: "already indexed" is decided by the bulk lookup strategies (C16) --
+    # a strategy that misclassifies keys makes pack_all_loose / import append known content again
+    if host is None:
+        from ..report import host_modules
+        host_modules(chk, ctx, ['C16'])
 
     return chk.finish(
         explanation=('Static analysis of the deduplication mechanisms: a decision-tree typestate on ObjectWriter.__exit__ (exists / checksum / replace), '
